@@ -125,8 +125,11 @@ func caseC05(c *Ctx) {
 	p.Steps = 160
 	p.Scale(3, "BuilderNew", "RelSet", "RelExchange", "BuilderAdd", "BatchSetRel", "RelExchangeBatch", "NewBatch")
 	p.Scale(2, "Add", "Remove", "Exchange")
-	p.Zero("RegisterType", "CacheRegister", "CacheUnregister")
-	o := Opts{Model: true, Targets: true, Track: true, Sweep: c.Case%3 == 0, NoTrans: true}
+	p.Zero("RegisterType")
+	p.W["CacheRegister"], p.W["CacheUnregister"] = 4, 1
+	p.PCached = 0.3
+	p.RelRegs = true
+	o := Opts{Model: true, Targets: true, Cache: true, Track: true, Sweep: c.Case%3 == 0, NoTrans: true}
 	s := NewSess(cfg, o)
 	g := NewGen(c.R, s, p)
 	rows := []FaultRow{}
